@@ -51,6 +51,15 @@ def np_hook(record=None):
             return [arr[i] for i in idx]
         if name in ("np.array", "np.asarray", "numpy.array", "numpy.asarray") and call.args:
             return ev.eval(call.args[0])
+        if name in ("np.max", "numpy.max", "np.amax", "numpy.amax") and len(call.args) == 1 and not call.keywords:
+            v = ev.eval(call.args[0])
+            flat = [y for x in v for y in (x if isinstance(x, list) else [x])] if isinstance(v, list) else None
+            if flat and all(isinstance(y, int) for y in flat):
+                return max(flat)
+        if name in ("np.zeros", "numpy.zeros", "np.empty", "numpy.empty") and call.args:
+            shape = ev.eval(call.args[0])
+            if isinstance(shape, tuple) and len(shape) == 2 and isinstance(shape[0], int):
+                return [Sym(f"unset{k}") for k in range(shape[0])]  # one atom per row (a point)
         if record is not None and isinstance(call.func, ast.Attribute) and call.func.attr in record["methods"]:
             recv = ev.eval(call.func.value)
             args = [ev.eval(a) for a in call.args]
@@ -486,7 +495,11 @@ def backport(repo: Repo) -> RuleRun:
     sketch.set("indexes", quads)
     sketch.set("positions", [Sym(f"x{i}") for i in range(6)])
     faces = [Obj(f"face{i}") for i in range(3)]
+    for fc, quad in zip(faces, quads):
+        fc.set("point_array", [sketch.get("positions")[q] for q in quad])
     sketch.set("faces", faces)
+    # the grid of a sketch groups its faces (core / shell ...) and need not list them in the order of `faces` / `indexes`
+    sketch.set("grid", [[faces[1]], [faces[0], faces[2]]])
     _run(Evaluator(repo=repo, module=fs.module, call_hook=ctor_hook), fs, [Sym("cls"), sketch])
     r.check(made.get("args") == [sketch.get("positions"), quads], fs, "grid built from sketch.positions / sketch.indexes", f"QuadGrid.from_sketch builds the grid from {made.get('args')}", fs.node, key="from_sketch")
 
@@ -747,4 +760,76 @@ def backport_live(repo: Repo, prop: str = PROP, rule: str = "C15.BACKPORT-LIVE")
 backport_live.rule_id = "C15.BACKPORT-LIVE"
 
 
-RULES = [write_guard, edge_neighbours, boundary_rule, backport, no_stale_lazy_cache, irregular_valence, no_rounding, match_tolerance, neighbour_binding, grid_ownership, backport_live]
+
+def iterable_once(repo: Repo) -> RuleRun:
+    """'leaves ... every point the user fixed exactly where it was': the indexes to fix arrive as an Iterable - a generator, map or
+    filter object is as legal as a list and can be walked ONCE. A parameter annotated Iterable / Iterator is consumed at a single
+    site (or materialised first: x = list(x)); a validation pass in front of the real use exhausts a generator, and nothing is fixed."""
+    r = RuleRun(PROP, "C15.ITERABLE-ONCE", floor=1, what="a parameter annotated Iterable[...] / Iterator[...] is iterated at one site only (or materialised first)")
+    n = 0
+    for fn in sorted(repo.all_functions(), key=lambda f: f.qualname):
+        if not fn.module.name.startswith("classy_blocks.optimize"):
+            continue
+        for a in [*fn.node.args.args, *fn.node.args.kwonlyargs]:
+            ann = ast.unparse(a.annotation) if a.annotation is not None else ""
+            if not (ann.startswith(("Iterable[", "Iterator[", "typing.Iterable[")) or ann in ("Iterable", "Iterator")):
+                continue
+            n += 1
+            # materialised first?
+            first = fn.node.body[0] if not (isinstance(fn.node.body[0], ast.Expr) and isinstance(fn.node.body[0].value, ast.Constant)) else (fn.node.body[1] if len(fn.node.body) > 1 else None)
+            if isinstance(first, ast.Assign) and len(first.targets) == 1 and isinstance(first.targets[0], ast.Name) and first.targets[0].id == a.arg and isinstance(first.value, ast.Call) and (attr_chain(first.value.func) or "") in ("list", "tuple", "set", "sorted", "frozenset"):
+                r.ok(fn, f"'{a.arg}' is materialised first", key=f"{a.arg}:materialised")
+                continue
+            sites = []
+            for x in ast.walk(fn.node):
+                if isinstance(x, (ast.For, ast.comprehension)) and isinstance(x.iter, ast.Name) and x.iter.id == a.arg:
+                    sites.append(x)
+                elif isinstance(x, ast.Call) and any(isinstance(y, ast.Name) and y.id == a.arg for y in x.args) and (attr_chain(x.func) or "").split(".")[-1] in ("list", "tuple", "set", "sorted", "frozenset", "any", "all", "sum", "max", "min", "len", "update", "extend", "array", "asarray", "fromiter", "enumerate", "zip", "map", "filter"):
+                    sites.append(x)
+            r.check(
+                len(sites) <= 1,
+                fn,
+                f"'{a.arg}': {len(sites)} consuming site(s)",
+                f"{fn.qualname} walks its parameter '{a.arg}: {ann}' at {len(sites)} sites ({'; '.join(ast.unparse(x)[:50] if not isinstance(x, ast.comprehension) else 'for ... in ' + a.arg for x in sites)}): a generator, map or "
+                "filter object - all Iterables - is exhausted by the first, the second sees nothing: smoother.fix_indexes(i for i in ...) fixes no point and the points the user fixed are smoothed away",
+                fn.node,
+                key=f"{a.arg}:sites",
+            )
+    r.require(n >= 1, "no Iterable-annotated parameter found in the optimize package (SmootherBase.fix_indexes re-annotated?)")
+    return r
+
+
+iterable_once.rule_id = "C15.ITERABLE-ONCE"
+
+
+
+def smooth_needs_no_quality(repo: Repo) -> RuleRun:
+    """'... moves each remaining interior point to the average of the points it is connected to': smoothing is what untangles a
+    degenerate start (all interior points in one spot), so it must not depend on the cells being valid - nothing reachable from
+    SmootherBase.smooth evaluates a cell quality (CellBase.quality raises 'Degenerate Cell' for coincident points)."""
+    r = RuleRun(PROP, "C15.SMOOTH-NO-QUALITY", floor=1, what="no quality evaluation (CellBase / Junction / GridBase .quality) is reachable from SmootherBase.smooth")
+    smooth = repo.func("optimize.smoother.SmootherBase.smooth")
+    closure = repo.reachable([smooth])
+    bad = sorted(f_.qualname for f_ in closure if f_.name == "quality" and f_.module.name.startswith("classy_blocks.optimize"))
+    # property reads are not calls: look for `.quality` attribute loads in the closure as well
+    reads = []
+    for f_ in closure:
+        for x in ast.walk(f_.node):
+            if isinstance(x, ast.Attribute) and x.attr == "quality" and isinstance(x.ctx, ast.Load):
+                reads.append((f_, x))
+    r.check(
+        not bad and not reads,
+        smooth,
+        f"{len(closure)} functions reachable from smooth(): none evaluates a quality",
+        "SmootherBase.smooth reaches a quality evaluation (" + ", ".join(bad + [f"{f_.qualname}: '{ast.unparse(x)}'" for f_, x in reads][:4]) + "): CellBase.quality raises ValueError('Degenerate Cell') for coincident points, "
+        "so smoothing a map whose interior points start in one spot - the very case it exists for - ends in an exception instead of the lattice",
+        (reads[0][1] if reads else smooth.node),
+        key="reach",
+    )
+    return r
+
+
+smooth_needs_no_quality.rule_id = "C15.SMOOTH-NO-QUALITY"
+
+
+RULES = [write_guard, edge_neighbours, boundary_rule, backport, no_stale_lazy_cache, irregular_valence, no_rounding, match_tolerance, neighbour_binding, grid_ownership, backport_live, iterable_once, smooth_needs_no_quality]
